@@ -155,6 +155,14 @@ VARIANTS = {
     # rendered once more with another (longer) window on another sequence
     'reentrant': '<dtml-in s start=st end=en size=sz orphan=orp overlap=ov>'
                  '%s<dtml-var hook><dtml-else>EMPTY</dtml-in>',
+    # the batch links of the page, written as nested tags over the same
+    # name inside the body (they see the sequence the loop is walking)
+    'nested-links': '<dtml-in s start=st end=en size=sz orphan=orp '
+                    'overlap=ov>%s<dtml-if sequence-end><dtml-in s next '
+                    'start=st end=en size=sz orphan=orp overlap=ov>more'
+                    '</dtml-in><dtml-in s previous start=st end=en size=sz '
+                    'orphan=orp overlap=ov>less</dtml-in></dtml-if>'
+                    '<dtml-else>EMPTY</dtml-in>',
     'literal': None,     # parameters written as integer literals
     'plain': '<dtml-in s start=st end=en size=sz orphan=orp overlap=ov>%s'
              '<dtml-else>EMPTY</dtml-in>',
